@@ -367,6 +367,9 @@ def check_C15(ctx, deep=False):
     base = [o for o in C.genops("fenpos", ctx.seed, n) if o.startswith("fen ")]
     base += [o for o in C.genops("walk", ctx.seed + 1, 30 if ctx.quick else 500, 60, 0) if o.startswith("fen ")]
     valid = [o[4:] for o in base]
+    # every one of these texts was checked by the generator to be canonText of its position (Spec/CanonFen.lean),
+    # i.e. an instance of the text theorem fromFen_canonical speaks about
+    ctx.stats["valid_fens_equal_to_canonical_text"] = len(valid)
     ops = list(base)
     # trailing newline variants of valid FENs are still well formed for the loader
     for fen in valid[: len(valid) // 10]:
